@@ -719,7 +719,52 @@ def rule_optional_uri(ctx):
            not probs, "; ".join(probs[:2]), fn.loc())
 
 
+def rule_forward_for_roundtrip(ctx):
+    """A message the library can BUILD must be one it can READ BACK: a forwarding principal without an authid (`authid: None`, which the constructors
+    and the documented field type admit) must be accepted by parse() too -- else the marshalled message of a router-to-router link does not survive
+    the serializer.  Cell-wise (sa.core.tiny): the constructor's own assertions on forward_for decide which entries can be built; parse() is evaluated
+    on the documented message carrying that entry."""
+    import re
+    from ..core.tiny import Tiny, Sym
+    from .c08 import _classes, doc_prefix, parse_on
+    ctx.rule("C03.9-forward-for-entries-read-back")
+    m, base, classes = _classes(ctx)
+    ENTRIES = [("authid 'a'", {"session": 1, "authid": "a", "authrole": "r"}), ("authid None", {"session": 1, "authid": None, "authrole": "r"})]
+    n = 0
+    for c in classes:
+        init = ctx.program.lookup_method(c, "__init__")
+        fn = c.methods.get("parse")
+        if init is None or fn is None or "forward_for" not in init.params():
+            continue
+        doc = ast.get_docstring(c.node) or ""
+        fmts = [[x.strip() for x in " ".join(mm.group(1).split()).split(",")] for mm in re.finditer(r"``\[(.*?)\]``", doc, re.S)]
+        with_dict = [f for f in fmts if any(p_.split("|")[-1].strip() == "dict" for p_ in f)]
+        if not with_dict:
+            continue
+        prefix = doc_prefix(ctx, m, c, [min(with_dict, key=len)])
+        dpos = [i for i, v in enumerate(prefix) if isinstance(v, dict)][0]
+        checks = [st for st in init.node.body if isinstance(st, (ast.Assert, ast.If, ast.For)) and any(isinstance(x, ast.Name) and x.id == "forward_for" for x in ast.walk(st))]
+        ctx.analysed(fn, init)
+        for label, entry in ENTRIES:
+            try:
+                t = Tiny({"self": Sym("message"), "forward_for": [dict(entry)]}, default_call=lambda f_, a_, k_=None: Sym(f"<{f_}>"), model_types=True, opaque_globals=True)
+                rc = t.run(checks)
+            except AnalysisError as e:
+                raise AnalysisError(f"[C03.9-forward-for-entries-read-back] {c.name}.__init__ forward_for assertions outside the modelled subset: {e}")
+            if rc[0] == "raise":
+                continue   # the library cannot build such a message: nothing to read back
+            msg = list(prefix)
+            msg[dpos] = {"forward_for": [dict(entry)]}
+            r, made = parse_on(ctx, m, c, msg, "C03.9-forward-for-entries-read-back", typed_validators=True)
+            n += 1
+            ctx.ob(f"{c.name}: a forward_for entry the constructor admits ({label}) is read back by parse()", r[0] == "return",
+                   f"{c.name}(..., forward_for=[{entry}]) can be built and marshalled, but parse() answers {r[0]} {str(r[1])[:70]}: the message does not survive the serializer",
+                   fn.loc())
+    ctx.require(n >= 20, f"only {n} forward_for cells evaluated")
+
+
 def run(ctx):
+    rule_forward_for_roundtrip(ctx)
     rule_optional_uri(ctx)
     rule_payload_marshal_cells(ctx, "C03.7-payload-tail-marshalled")
     rule_role_features(ctx)
